@@ -337,7 +337,7 @@ theorem stage1_eq (hash : Bytes → Nat) (sat : Nat → Bytes → Bool) (noRoute
           rw [hans] at this; simp at this
       exact better_static_dyn _ _ _ _ hρs hcns hρmatch hcmatch
   have hlook := lemma_lookupM sat noRoute script R hRs hN hstd req.method req.path hp
-    (by simp [dShadow1, hsh]) (by simp [dNames1, hsh]) (by simp [dCfall1, hsh])
+    (by simp [dShadow1, hsh]) (by simp [dCfall1, hsh])
   rw [href] at hlook
   simp only [Option.map_some, hρrm, Option.getD_some] at hlook
   rw [lemma_serve_lookup, hlook]
